@@ -22,7 +22,7 @@ const rule = "topologies of 3-10 ASes (1-3 ISDs; core, parent-child, peering and
 func main() {
 	netgen.Main("C02", "Prov.check02", rule, func(x *netgen.Ctx) {
 		run := x.Run
-		nWorlds := run.Count(20, 400)
+		nWorlds := run.Count(16, 400)
 		perWorld := 16
 		if run.Tier == "thorough" {
 			perWorld = 40
